@@ -4,9 +4,11 @@
    Copy/CopyGraph.  A trace quantifier covers every interleaving and every latency
    assignment (a latency assignment only selects an interleaving of the visible events). *)
 From Oras Require Import Base.Prelude Generated.GC04 Model.CopySpec Model.CopyTop Model.CopyOpt
-  Proofs.CopySpec Proofs.CopyAcct Proofs.CopyOpt.
+  Proofs.CopySpec Proofs.CopyAcct Proofs.CopyOpt Proofs.CopyAbort.
+From Oras Require Import Model.CopyHold Proofs.CopyHold Proofs.CopySrcOrder.
+From Oras Require Model.CopyCancel.
 Local Open Scope nat_scope.
-From Oras Require Model.CopyImpl Proofs.CopyImplBase Properties.C02_protocol.
+From Oras Require Model.CopyImpl Proofs.CopyImplBase Properties.C02_protocol Proofs.CopyPermitsFinal.
 
 (* at every instant (every prefix of every accepted trace) at most K source reads
    (Fetch ... Close) and at most K destination operations (Exists, Push/PushReference,
@@ -240,3 +242,247 @@ Theorem C04_inflight_bounded_by_permits :
     CopyImpl.inflight s <= CopyImpl.holders s /\ CopyImpl.inflight s <= K.
 Proof. exact C02_protocol.C04_inflight_bounded. Qed.
 Print Assumptions C04_inflight_bounded_by_permits.
+
+(* ---- extension round: "aborts the copy", terminal notifications and uploads counted together ---- *)
+
+(* "an error returned by a callback aborts the copy": the node never completes, hence NO direct
+   predecessor of it is ever copied -- none of the predecessor's PreCopy / PostCopy / MountFrom /
+   OnMounted invocations (returning nil or an error) and none of its Mount calls occurs anywhere in
+   the trace, before or after the failure, in any interleaving.  (Not transitive: a predecessor that
+   the destination already holds is skipped without looking at its successors.) *)
+Theorem C04_failed_successor_blocks_predecessors :
+  forall (g : graph) (c : cfg) (d0 : list node) (tr : list event) (st : state) (k : cbk) (n p : node),
+    accepts g c d0 tr = Some st -> In (CbFail k n) tr -> In n (succ' g p) ->
+    (forall k', k' <> CSkip -> ~ In (Cb k' p) tr /\ ~ In (CbFail k' p) tr) /\
+    ~ In (MtB p) tr /\ (forall r, ~ In (MtE p r) tr).
+Proof. exact failed_successor_blocks_parent. Qed.
+Print Assumptions C04_failed_successor_blocks_predecessors.
+
+(* for every choice of nil callbacks, on the elaborated trace (the invocation point of a nil PreCopy
+   stands right before the node's Fetch / Push) ... *)
+Theorem C04_failed_successor_blocks_predecessors_any_callbacks :
+  forall (g : graph) (c : cfg) (d0 : list node) (cs : cbset) (tr : list event) (st : state)
+         (full : list event) (k : cbk) (n p : node),
+    accepts_opt cs g c d0 tr = Some (st, full) -> In (CbFail k n) tr -> In n (succ' g p) ->
+    forall e, In e full -> copy_ev p e = false.
+Proof. exact failed_successor_blocks_parent_opt. Qed.
+Print Assumptions C04_failed_successor_blocks_predecessors_any_callbacks.
+
+(* ... hence such a predecessor is never uploaded: the only push of it that can occur is the
+   re-push (with the reference) of a root the destination holds already *)
+Theorem C04_failed_successor_predecessor_not_pushed :
+  forall (g : graph) (c : cfg) (d0 : list node) (cs : cbset) (tr : list event) (st : state)
+         (full : list event) (k : cbk) (n p : node) (r : bool) (f1 f2 : list event),
+    accepts_opt cs g c d0 tr = Some (st, full) -> In (CbFail k n) tr -> In n (succ' g p) ->
+    full = f1 ++ PuB p r :: f2 ->
+    exists st1, accepts g c d0 f1 = Some st1 /\ has g (dst st1) p = true.
+Proof. exact failed_successor_parent_not_pushed. Qed.
+Print Assumptions C04_failed_successor_predecessor_not_pushed.
+
+(* the seeded change "close(done) also on failure" yields exactly such a trace; the transition
+   system rejects it (and C04_abort_example: the hypotheses above are satisfiable) *)
+Example C04_abort_example :
+  exists st, accepts g_ab c_ab [] tr_ab = Some st /\ returned st = Some false /\
+             In (CbFail CPre 0) tr_ab /\ In 0 (succ' g_ab 2) /\
+             cnt (is_upload 1) tr_ab = 1 /\ cnt (is_term 1) tr_ab = 1.
+Proof. exact abort_example. Qed.
+Example C04_copy_past_failure_rejected : accepts g_ab c_ab [] tr_ab_bad = None.
+Proof. vm_compute. reflexivity. Qed.
+
+(* PostCopy, OnCopySkipped and OnMounted exclude each other: per node at most ONE terminal
+   notification of any kind (returning nil or an error) ... *)
+Theorem C04_terminal_notification_at_most_once :
+  forall (g : graph) (c : cfg) (d0 : list node) (tr : list event) (st : state) (n : node),
+    accepts g c d0 tr = Some st ->
+    cnt (is_cb CPost n) tr + cnt (is_cb CSkip n) tr + cnt (is_cb CMounted n) tr <= 1.
+Proof. exact term_once_lemma. Qed.
+Print Assumptions C04_terminal_notification_at_most_once.
+
+(* ... and every node a successful copy visited (dst.Exists was called on it) got exactly one --
+   except the already-present root of a ReferencePusher copy (re-pushed with the reference by
+   prepareCopy instead of OnCopySkipped), which gets none *)
+Theorem C04_exactly_one_terminal_notification :
+  forall (g : graph) (c : cfg) (d0 : list node) (tr : list event) (st : state) (n : node),
+    accepts g c d0 tr = Some st -> returned st = Some true -> In (ExB n) tr ->
+    cnt (is_cb CPost n) tr + cnt (is_cb CSkip n) tr + cnt (is_cb CMounted n) tr = 1 \/
+    (root_refpush c n = true /\
+     cnt (is_cb CPost n) tr + cnt (is_cb CSkip n) tr + cnt (is_cb CMounted n) tr = 0).
+Proof. exact exactly_one_terminal. Qed.
+Print Assumptions C04_exactly_one_terminal_notification.
+
+(* single transfer, counting the upload inside Mount: per node at most one of
+   { Push / PushReference called, Mount fell back to uploading } *)
+Theorem C04_single_upload :
+  forall (g : graph) (c : cfg) (d0 : list node) (tr : list event) (st : state) (n : node),
+    accepts g c d0 tr = Some st -> cnt (is_upload n) tr <= 1.
+Proof. exact upload_once_lemma. Qed.
+Print Assumptions C04_single_upload.
+
+(* ---- the permit-holding overlay (Model/CopyHold.v): the intervals during which a task holds a
+   permit of the limiter, as far as the visible events show them -- a LEAF keeps its permit from
+   dst.Exists to the end of its task (copyGraph.fn calls region.End() only for nodes with
+   successors), a non-leaf gives it up while its successors run and re-acquires it (region.Start())
+   before PreCopy / MountFrom.  C04's runner replays every recorded trace on this overlay. ---- *)
+
+(* the overlay only strengthens the guard: what it accepts, the transition system accepts -- so
+   every theorem above applies to the traces the runner accepts *)
+Theorem C04_overlay_refines :
+  forall (g : graph) (c : cfg) (d0 : list node) (tr : list event) (st : state),
+    accepts_h g c d0 tr = Some st -> accepts g c d0 tr = Some st.
+Proof. exact accepts_h_accepts. Qed.
+Print Assumptions C04_overlay_refines.
+
+Theorem C04_overlay_refines_any_callbacks :
+  forall (cs : cbset) (g : graph) (c : cfg) (d0 : list node) (tr : list event) (st : state)
+         (full : list event),
+    accepts_opt_h cs g c d0 tr = Some (st, full) -> accepts_opt cs g c d0 tr = Some (st, full).
+Proof. exact accepts_opt_h_accepts_opt. Qed.
+Print Assumptions C04_overlay_refines_any_callbacks.
+
+(* ... also under C01's cancellation layer (Model/CopyCancel.v: the caller's context ends), which the
+   shared runner steps through: the overlay's version of it accepts nothing the layer rejects *)
+Theorem C04_overlay_refines_cancellation :
+  forall (cs : cbset) (g : graph) (c : cfg) (d0 : list node) (tr : list CopyCancel.cevent)
+         (r : CopyCancel.cstate * list event),
+    caccepts_opt_h cs g c d0 tr = Some r -> CopyCancel.caccepts_opt cs g c d0 tr = Some r.
+Proof. exact caccepts_opt_h_caccepts_opt. Qed.
+Print Assumptions C04_overlay_refines_cancellation.
+
+(* at every instant at most K permits are held, and the source reads and destination operations in
+   flight are covered by the permits held *)
+Theorem C04_permits_held_bounded :
+  forall (g : graph) (c : cfg) (d0 : list node) (tr1 tr2 : list event) (st : state),
+    accepts_h g c d0 (tr1 ++ tr2) = Some st ->
+    exists st1, accepts_h g c d0 tr1 = Some st1 /\ holders g st1 <= c_K c /\
+                inflight_src g st1 <= holders g st1 /\ inflight_dst g st1 <= holders g st1.
+Proof. exact holders_prefix_lemma. Qed.
+Print Assumptions C04_permits_held_bounded.
+
+Theorem C04_permits_held_bounded_any_callbacks :
+  forall (cs : cbset) (g : graph) (c : cfg) (d0 : list node) (tr1 tr2 : list event) (st : state)
+         (full : list event),
+    accepts_opt_h cs g c d0 (tr1 ++ tr2) = Some (st, full) ->
+    exists st1 f1, accepts_opt_h cs g c d0 tr1 = Some (st1, f1) /\ holders g st1 <= c_K c /\
+                   inflight_src g st1 <= holders g st1 /\ inflight_dst g st1 <= holders g st1.
+Proof. exact holders_prefix_opt_lemma. Qed.
+Print Assumptions C04_permits_held_bounded_any_callbacks.
+
+(* after a successful return no task holds a permit (the spec-side counterpart of
+   C04_all_permits_free_at_return below) *)
+Theorem C04_no_permit_held_at_success :
+  forall (g : graph) (c : cfg) (d0 : list node) (tr : list event) (st : state),
+    accepts_h g c d0 tr = Some st -> returned st = Some true -> holders g st = 0.
+Proof. exact no_holders_at_success. Qed.
+Print Assumptions C04_no_permit_held_at_success.
+
+(* the overlay's holding intervals are those of the protocol model: "certainly holds" is
+   CopyImplBase.must_hold of the program counter that the phase stands for (TExists, TFind, TPush hold;
+   a non-leaf in TGo .. TStart does not) -- the two models cannot drift apart on who holds a permit *)
+Theorem C04_overlay_matches_protocol_holding :
+  forall (g : graph) (n : node) (p : phase),
+    holds_ph g n p =
+    match pc_of_phase (leaf g n) p with Some q => CopyImplBase.must_hold q | None => false end.
+Proof. exact overlay_holds_is_protocol_must_hold. Qed.
+Print Assumptions C04_overlay_matches_protocol_holding.
+
+(* the overlay is strictly tighter: with K = 1 a second blob cannot be probed while a leaf that was
+   found absent waits for its PreCopy (it holds the only permit) -- CopySpec alone accepts that
+   interleaving -- and the sequential run is accepted *)
+Example C04_overlay_is_tighter :
+  (exists st, accepts g_leaf c_leaf [] tr_leaf_bad = Some st) /\
+  accepts_h g_leaf c_leaf [] tr_leaf_bad = None /\
+  (exists st, accepts_h g_leaf c_leaf [] tr_leaf_ok = Some st /\ returned st = Some true).
+Proof. exact overlay_is_tighter. Qed.
+
+(* ---- the limiter after the call.  On the protocol model (Model/CopyImpl.v): once the top-level
+   syncutil.Go has returned -- nil or an error, any fault, any interleaving -- every task has
+   finished, nothing is in flight and all K permits are free.  The harness reads exactly this off
+   the real semaphore after every CopyGraph call made through the verif hook (oracle: permit-leak),
+   and at every recorded event that the operations in flight are covered by the permits taken
+   (oracle: op-without-permit; the model-side statement is C04_inflight_bounded_by_permits). ---- *)
+Theorem C04_all_permits_free_at_return :
+  forall succ K ext roots, (forall n m, In m (succ n) -> m < n) ->
+  forall s, CopyImplBase.Reachable succ K ext roots s -> CopyImpl.is_final s = true ->
+    CopyImpl.free s = K /\ CopyImpl.holders s = 0 /\ CopyImpl.inflight s = 0.
+Proof. exact CopyPermitsFinal.all_permits_free_at_return. Qed.
+Print Assumptions C04_all_permits_free_at_return.
+
+(* satisfiable, on a failing run: K = 2, ExtendedCopyGraph with roots 4 and 3 over the DAG of
+   C02_protocol's examples, the first push fails; the run is reachable, final, and returns an error *)
+Example C04_all_permits_free_example :
+  let ls := snd (CopyImpl.sched C02_protocol.ex_succ CopyImpl.pick_push_fault 400 (CopyImpl.init 2 true [4; 3]) []) in
+  match CopyImpl.run C02_protocol.ex_succ (CopyImpl.init 2 true [4; 3]) ls with
+  | Some s => CopyImpl.is_final s = true /\ CopyImpl.result s = Some true /\ CopyImpl.free s = 2
+  | None => False
+  end.
+Proof. vm_compute. repeat split; reflexivity. Qed.
+
+(* ---- tie to the Go sources beyond the constant (Generated/GC04.v, regenerated on every run) ---- *)
+
+(* the size of the semaphore, translated from the syntax of BOTH places that create it (copyGraph in
+   copy.go, ExtendedCopyGraph in extendedcopy.go: the `if opts.Concurrency <= 0` guard, the assigned
+   default, the argument of semaphore.NewWeighted), is the model's effective concurrency; the runner
+   computes K with the generated function *)
+Theorem C04_limiter_size :
+  forall opt : Z,
+    Z.to_nat (copyGraph_limiter_size opt) = eff_K defaultConcurrency opt /\
+    Z.to_nat (ExtendedCopyGraph_limiter_size opt) = eff_K defaultConcurrency opt /\
+    ((0 < opt)%Z -> copyGraph_limiter_size opt = opt) /\
+    ((opt <= 0)%Z -> copyGraph_limiter_size opt = 3%Z).
+Proof. exact limiter_sizes_lemma. Qed.
+Print Assumptions C04_limiter_size.
+
+(* the order of the calls in the sources that the transition system and the protocol model are
+   written after (translator kind callseq): copyGraph.fn claims, probes, finds successors, releases
+   its permit, dispatches, waits, re-acquires, copies; copyNode = PreCopy, doCopyNode, PostCopy;
+   doCopyNode = Fetch, deferred Close, Push; syncutil.Go acquires before spawning and releases in the
+   goroutine's defer; Start acquires, End releases; ExtendedCopyGraph creates ONE limiter and ONE
+   tracker and its closure releases the permit around copyGraph *)
+Theorem C04_source_call_order :
+  c04_calls_copyGraph =
+    [b "tracker.TryCommit"; b "close"; b "dst.Exists"; b "opts.OnCopySkipped"; b "opts.FindSuccessors";
+     b "removeForeignLayers"; b "region.End"; b "syncutil.Go"; b "tracker.TryCommit"; b "region.Start";
+     b "proxy.Cache.Exists"; b "copyNode"; b "mountOrCopyNode"; b "syncutil.Go"]%string /\
+  c04_calls_copyNode = [b "opts.PreCopy"; b "doCopyNode"; b "opts.PostCopy"]%string /\
+  c04_calls_doCopyNode = [b "src.Fetch"; b "rc.Close"; b "dst.Push"]%string /\
+  c04_calls_mountOrCopyNode =
+    [b "copyNode"; b "copyNode"; b "opts.MountFrom"; b "copyNode"; b "opts.PreCopy"; b "src.Fetch";
+     b "mounter.Mount"; b "opts.OnMounted"; b "opts.PostCopy"]%string /\
+  c04_calls_ExtendedCopyGraph =
+    [b "findRoots"; b "semaphore.NewWeighted"; b "status.NewTracker"; b "syncutil.Go"; b "region.End";
+     b "copyGraph"; b "region.Start"]%string /\
+  c04_calls_Go =
+    [b "LimitRegion"; b "region.Start"; b "eg.Go"; b "lr.End"; b "fn"; b "eg.Wait"; b "context.Cause"]%string /\
+  c04_calls_Start = [b "lr.limiter.Acquire"]%string /\
+  c04_calls_End = [b "lr.limiter.Release"]%string.
+Proof. exact source_call_order. Qed.
+Print Assumptions C04_source_call_order.
+
+(* ... and the transition system enforces that order on the visible events of every node, in every
+   interleaving.  For a blob: PreCopy before src.Fetch; *)
+Theorem C04_fetch_after_precopy :
+  forall (g : graph) (c : cfg) (d0 : list node) (tr1 : list event) (n : node) (tr2 : list event) (st : state),
+    accepts g c d0 (tr1 ++ SFB n :: tr2) = Some st ->
+    g_ismf g n = false -> root_refpush c n = false -> In (Cb CPre n) tr1.
+Proof. exact fetch_after_precopy. Qed.
+Print Assumptions C04_fetch_after_precopy.
+
+(* content that is not in the proxy cache is pushed while its source reader is open (Fetch called
+   and returned before dst.Push is called); *)
+Theorem C04_push_after_fetch :
+  forall (g : graph) (c : cfg) (d0 : list node) (tr1 : list event) (n : node) (r : bool)
+         (tr2 : list event) (st : state),
+    accepts g c d0 (tr1 ++ PuB n r :: tr2) = Some st ->
+    exists st1, accepts g c d0 tr1 = Some st1 /\
+                (memb n (cached st1) = false -> In (SFB n) tr1 /\ In (SFE n) tr1).
+Proof. exact push_after_fetch. Qed.
+Print Assumptions C04_push_after_fetch.
+
+(* the reader is closed only after dst.Push was called (the deferred rc.Close); PostCopy after the push
+   returned is C04_push_between_callbacks *)
+Theorem C04_close_after_push :
+  forall (g : graph) (c : cfg) (d0 : list node) (tr1 : list event) (n : node) (tr2 : list event) (st : state),
+    accepts g c d0 (tr1 ++ SFC n :: tr2) = Some st ->
+    g_ismf g n = false -> c_mount c = false -> In (PuB n (root_refpush c n)) tr1.
+Proof. exact close_after_push. Qed.
+Print Assumptions C04_close_after_push.
